@@ -30,7 +30,7 @@ OUT = os.path.join(VERIF, "mutants", "sweep.jsonl")
 
 FILES = {
     "opfython/core/heap.py": ["C05", "C01", "C13"],
-    "opfython/core/subgraph.py": ["C01", "C17", "C18", "C10", "C19"],
+    "opfython/core/subgraph.py": ["C01", "C17", "C18", "C12", "C13", "C10", "C19"],
     "opfython/core/opf.py": ["C19", "C10", "C06"],
     "opfython/models/supervised.py": ["C01", "C02", "C03", "C04", "C17", "C11", "C09", "C10"],
     "opfython/models/semi_supervised.py": ["C15", "C02", "C03", "C09"],
